@@ -84,3 +84,11 @@ impl ops::IndexMut<thread::Id> for VersionVec {
         self.versions.index_mut(index.as_usize())
     }
 }
+
+#[cfg(feature = "verif-hooks")]
+impl VersionVec {
+    pub(crate) fn verif_dump(&self) -> String {
+        let v: Vec<String> = self.versions.iter().map(|x| x.to_string()).collect();
+        format!("[{}]", v.join(","))
+    }
+}
